@@ -373,8 +373,11 @@ impl McnkChunk {
             // Read the 8-byte chunk header (magic + size, where size is always 0)
             let _chunk_header = ChunkHeader::read_le(reader)?;
 
-            // Read the actual data using size_liquid from MCNK header
-            let data = read_chunk_data(reader, header.size_liquid)?;
+            // Read the actual data using size_liquid from MCNK header. The stored size
+            // covers the MCLQ chunk including its 8-byte header (which was just read),
+            // so only the remainder is payload; reading `size_liquid` more bytes ran 8
+            // bytes past the chunk and failed when MCLQ was the last thing in the file.
+            let data = read_chunk_data(reader, header.size_liquid.saturating_sub(8))?;
 
             if !data.is_empty() {
                 // Pass MCNK flags to MCLQ parser for liquid type detection
